@@ -42,7 +42,10 @@ def byte_cases(rng, n):
 
 def pattern_cases(rng, n):
     out = construct_corpus() + ["", "\x00", "\\", "[", "(", "{", "a{", "a{1", "a{1,", "[a-", "[\\", "\\x", "\\p{", "(" * 400, "(" * 200 + "a" + ")" * 200, "a|" * 500 + "a", "[" + "a" * 500 + "]", "a{0}" * 50,
-                                "\\xFFFFFFFF", "[\\x00-\\xFFFFFFFF]"[:0] + "[\\x0000-\\x00FF]", "é", "\U0001F335", "a\x00b", "a{3}{2}", "(a{2}){3}", "a{10}", "(ab){4}c{0,3}"]
+                                "\\xFFFFFFFF", "[\\x00-\\xFFFFFFFF]"[:0] + "[\\x0000-\\x00FF]",
+                                # eight-digit escapes with the top bit set are negative runes: alone, in brackets, negated, as range ends
+                                "\\x80000000", "[\\xFFFFFFFF]", "[^\\xFFFFFFFF]", "[a\\xDEADBEEF]", "[\\xFFFFFFF0-\\xFFFFFFFF]", "[0-9\\xFFFFFFFE]+", "x|[\\x80000000]y",
+                                "[\\x7FFFFFFF]", "[a-\\x7FFFFFFF]"[:0] + "[\\x10FFFF]", "[^\\x80]", "[\\x7F-\\x80]", "é", "\U0001F335", "a\x00b", "a{3}{2}", "(a{2}){3}", "a{10}", "(ab){4}c{0,3}"]
     for _ in range(n):
         k = rng.random()
         if k < 0.4:
@@ -53,7 +56,7 @@ def pattern_cases(rng, n):
             out.append("".join(rng.choice("ab01\\|.?*+()[]{}$^-,:xpPdDsSwW\x00é ") for _ in range(rng.randrange(1, 25))))
     # repetition counts above 12 take minutes in the dependency's NFA construction (recorded finding F23): keep them out of the sweep
     def small_counts(p):
-        return all(int(x) <= 12 for x in re.findall(r"\d+", p))
+        return all(int(x) <= 12 for x in re.findall(r"[{,](\d+)", p))      # repetition bounds only (digits of hexadecimal escapes are not counts)
     return [p for p in out if small_counts(p) and p.count("{") <= 6]
 
 
